@@ -70,6 +70,7 @@ struct FileFacts {
     inner_attrs: Vec<String>,
     lints: Vec<String>,
     stdpaths: BTreeSet<String>,
+    trait_impls: Vec<(String, String)>, // (last segment of the trait path, self type) of every trait impl written out in the file
 }
 
 struct Scan<'a> {
@@ -198,6 +199,10 @@ impl<'a, 'ast> Visit<'ast> for Scan<'a> {
         self.attrs(&i.attrs);
         if i.unsafety.is_some() {
             self.f.unsafe_items.push(("unsafe_impl".into(), i.impl_token.span.start().line));
+        }
+        if let Some((_, p, _)) = &i.trait_ {
+            let last = p.segments.last().map(|s| s.ident.to_string()).unwrap_or_default();
+            self.f.trait_impls.push((last, norm_tokens(&i.self_ty.to_token_stream())));
         }
         syn::visit::visit_item_impl(self, i);
     }
@@ -822,6 +827,7 @@ fn main() {
         let _ = writeln!(facts_v, "  ff_statics := {};", coq_list(&ff.statics.iter().map(|s| coq_str(s)).collect::<Vec<_>>()));
         let _ = writeln!(facts_v, "  ff_cfg_keys := {};", coq_list(&ff.cfg_keys.iter().map(|s| coq_str(s)).collect::<Vec<_>>()));
         let _ = writeln!(facts_v, "  ff_stdpaths := {};", coq_list(&ff.stdpaths.iter().map(|s| coq_str(s)).collect::<Vec<_>>()));
+        let _ = writeln!(facts_v, "  ff_trait_impls := {};", coq_list(&ff.trait_impls.iter().map(|(t, ty)| format!("({}, {})", coq_str(t), coq_str(ty))).collect::<Vec<_>>()));
         let _ = writeln!(facts_v, "  ff_macro_defs := {} |}}.\n", coq_list(&ff.macro_defs.iter().map(|(n, b)| format!("({}, {})", coq_str(n), coq_list(&b.iter().map(|s| coq_str(s)).collect::<Vec<_>>()))).collect::<Vec<_>>()));
     }
     let _ = writeln!(facts_v, "Definition all_files : list file_facts := {}.\n", coq_list(&file_names));
